@@ -53,4 +53,147 @@ theorem guard_load_jcond64 (env : Env) (st : List Byte) (L : Label) (hlen : st.l
   | true => simp only [Bool.not_true, Bool.false_eq_true, if_false]; exact lrun_jmp_taken hjo h2
   | false => simp only [Bool.not_false, if_true]; exact lrun_jmp_next hjo h2
 
+theorem sext32_nat (k : Nat) : sext32 (k : Int) = BitVec.ofNat 64 k := by
+  unfold sext32; exact BitVec.ofInt_natCast 64 k
+
+theorem ofNat64_eq_iff {x k : Nat} (hx : x < 2 ^ 64) (hk : k < 2 ^ 64) :
+    (BitVec.ofNat 64 x = BitVec.ofNat 64 k) ↔ x = k := by
+  constructor
+  · intro h
+    have := congrArg BitVec.toNat h
+    simp only [BitVec.toNat_ofNat] at this
+    omega
+  · intro h; rw [h]
+
+theorem cond_eq_nat {x k : Nat} (hx : x < 2 ^ 64) (hk : k < 2 ^ 64) :
+    cond 1 (BitVec.ofNat 64 x) (sext32 (k : Int)) = some (x == k) := by
+  rw [sext32_nat]
+  simp only [cond]
+  by_cases h : x = k
+  · subst h; simp
+  · have hne : ¬ (BitVec.ofNat 64 x = BitVec.ofNat 64 k) :=
+      (fun e => h ((ofNat64_eq_iff hx hk).1 e))
+    have hb : (BitVec.ofNat 64 x == BitVec.ofNat 64 k) = false := by simpa using hne
+    have hb2 : (x == k) = false := by simpa using h
+    simp [bne, hb, hb2]
+
+theorem cond_ne_nat {x k : Nat} (hx : x < 2 ^ 64) (hk : k < 2 ^ 64) :
+    cond 5 (BitVec.ofNat 64 x) (sext32 (k : Int)) = some (x != k) := by
+  rw [sext32_nat]
+  simp only [cond]
+  by_cases h : x = k
+  · subst h; simp
+  · have hne : ¬ (BitVec.ofNat 64 x = BitVec.ofNat 64 k) :=
+      (fun e => h ((ofNat64_eq_iff hx hk).1 e))
+    have hb : (BitVec.ofNat 64 x == BitVec.ofNat 64 k) = false := by simpa using hne
+    have hb2 : (x == k) = false := by simpa using h
+    simp [bne, hb, hb2]
+
+/-- Equality / inequality test of a loaded field against a small constant. -/
+theorem guard_field_eq (env : Env) (st : List Byte) (L : Label) (hlen : st.length = 512)
+    (ldop n k : Nat) (v : Nat) (neg : Bool)
+    (hld : (ldop = opLoadReg8 ∧ n = 1) ∨ (ldop = opLoadReg16 ∧ n = 2))
+    (hk : k + n ≤ 512) (hv : v < 2 ^ 64) :
+    Guard env st L [.ins ⟨ldop, 1, 9, (k : Int), 0⟩,
+      if neg then jumpEqImm64 R1 (v : Int) L else jumpNEImm64 R1 (v : Int) L]
+      (if neg then !(fieldN st k n == v) else fieldN st k n == v) := by
+  have hf : fieldN st k n < 2 ^ 64 := by
+    have := fieldN_lt st k n
+    rcases hld with ⟨_, rfl⟩ | ⟨_, rfl⟩ <;> omega
+  have hld' : (ldop = opLoadReg8 ∧ n = 1) ∨ (ldop = opLoadReg16 ∧ n = 2) ∨ (ldop = opLoadReg32 ∧ n = 4) ∨
+      (ldop = opLoadReg64 ∧ n = 8) := by
+    rcases hld with h | h
+    · exact Or.inl h
+    · exact Or.inr (Or.inl h)
+  cases neg with
+  | true =>
+    have := guard_load_jcond64 env st L hlen ldop n k opJumpEqImm64 (v : Int) (fieldN st k n == v) hld' hk
+      (Or.inl rfl) (by simpa [opJumpEqImm64] using cond_eq_nat hf hv)
+    simpa [jumpEqImm64, mkJ, R1] using this
+  | false =>
+    have := guard_load_jcond64 env st L hlen ldop n k opJumpNEImm64 (v : Int) (fieldN st k n != v) hld' hk
+      (Or.inr (Or.inl rfl)) (by simpa [opJumpNEImm64] using cond_ne_nat hf hv)
+    simpa [jumpNEImm64, mkJ, R1, bne] using this
+
+/-! ### protocol -/
+
+/-- The builder's `protocolToNumber` knows the protocol (not the case for the
+names icmpv6 / udplite: known finding). -/
+def ProtoOK (pr : Proto) : Prop :=
+  ∃ k : Nat, k < 256 ∧ protoNumberRef pr = some k ∧ protocolToNumber pr = (k : Int)
+
+theorem pkt_proto_toNat (st : List Byte) : (pktOfD st).proto.toNat = fieldN st 104 1 := by
+  have := fieldN_lt st 104 1
+  simp only [pktOfD, BitVec.toNat_ofNat]
+  omega
+
+theorem guard_proto (env : Env) (st : List Byte) (rid : Nat) (neg : Bool) (pr : Proto)
+    (hlen : st.length = 512) (hp : ProtoOK pr) :
+    Guard env st (.ruleNoMatch rid) (protoMatch rid neg pr)
+      (if neg then !(protoIs (pktOfD st) pr) else protoIs (pktOfD st) pr) := by
+  obtain ⟨k, hk, h1, h2⟩ := hp
+  have hb : protoIs (pktOfD st) pr = (fieldN st 104 1 == k) := by
+    simp only [protoIs, h1, pkt_proto_toNat]
+  have := guard_field_eq env st (.ruleNoMatch rid) hlen opLoadReg8 1 104 k neg (Or.inl ⟨rfl, rfl⟩)
+    (by omega) (by omega)
+  rw [hb]
+  unfold protoMatch
+  rw [h2]
+  exact this
+
+/-! ### ICMP -/
+
+theorem fieldN_succ (st : List Byte) (k n : Nat) (h : k < st.length) :
+    fieldN st k (n + 1) = fieldN st k 1 + 256 * fieldN st (k + 1) n := by
+  unfold fieldN
+  rw [List.drop_eq_getElem_cons h]
+  simp [leNat, List.take]
+
+theorem pkt_icmpW_toNat (st : List Byte) : (pktOfD st).icmpW.toNat = fieldN st 98 2 := by
+  have := fieldN_lt st 98 2
+  simp only [pktOfD, BitVec.toNat_ofNat]
+  omega
+
+theorem guard_icmp (env : Env) (st : List Byte) (rid : Nat) (neg : Bool) (ic : Icmp) (hlen : st.length = 512) :
+    Guard env st (.ruleNoMatch rid) (icmpMatch rid neg ic)
+      (if neg then (ic == .none || !(icmpIs (pktOfD st) ic)) else icmpIs (pktOfD st) ic) := by
+  have h98 : fieldN st 98 2 = fieldN st 98 1 + 256 * fieldN st 99 1 := fieldN_succ st 98 1 (by omega)
+  have hlo := fieldN_lt st 98 1
+  have hhi := fieldN_lt st 99 1
+  cases ic with
+  | none =>
+    have : (if neg then ((Icmp.none == Icmp.none) || !(icmpIs (pktOfD st) .none)) else icmpIs (pktOfD st) .none) = true := by
+      cases neg <;> simp [icmpIs]
+    rw [this]
+    exact Guard.nil env st _
+  | type t =>
+    have ht : (toUint8 t) = (((t % 256).toNat : Nat) : Int) := by
+      unfold toUint8; omega
+    have hb : icmpIs (pktOfD st) (.type t) = (fieldN st 98 1 == (t % 256).toNat) := by
+      simp only [icmpIs, pkt_icmpW_toNat, h98]
+      have : ((fieldN st 98 1 + 256 * fieldN st 99 1) % 256 : Nat) = fieldN st 98 1 := by omega
+      rw [Bool.eq_iff_iff]
+      simp only [beq_iff_eq]
+      omega
+    have := guard_field_eq env st (.ruleNoMatch rid) hlen opLoadReg8 1 98 (t % 256).toNat neg (Or.inl ⟨rfl, rfl⟩)
+      (by omega) (by omega)
+    have hn : ((Icmp.type t == Icmp.none) = false) := by simp
+    simp only [icmpMatch, icmpTypeMatch, hb, hn, Bool.false_or]
+    rw [ht]
+    exact this
+  | typeCode t c =>
+    have hv : (toUint8 c) * 256 + toUint8 t = ((((c % 256).toNat * 256 + (t % 256).toNat : Nat)) : Int) := by
+      unfold toUint8; omega
+    have hb : icmpIs (pktOfD st) (.typeCode t c) = (fieldN st 98 2 == (c % 256).toNat * 256 + (t % 256).toNat) := by
+      simp only [icmpIs, pkt_icmpW_toNat, h98]
+      rw [Bool.eq_iff_iff]
+      simp only [Bool.and_eq_true, beq_iff_eq]
+      omega
+    have := guard_field_eq env st (.ruleNoMatch rid) hlen opLoadReg16 2 98 ((c % 256).toNat * 256 + (t % 256).toNat) neg
+      (Or.inr ⟨rfl, rfl⟩) (by omega) (by omega)
+    have hn : ((Icmp.typeCode t c == Icmp.none) = false) := by simp
+    simp only [icmpMatch, icmpTypeCodeMatch, hb, hn, Bool.false_or]
+    rw [hv]
+    exact this
+
 end CalicoVerif.C11
